@@ -184,6 +184,8 @@ def run(ctx):
     for key in ("F3a", "F3b", "F3c"):
         f, tab, bs = U.witnesses()[key]
         files.append((f, tab, "witness " + key, [bs]))
+    for f, tab, note in U.nul_heavy_files(rng, 6 if quick else 60):
+        files.append((f, tab, note, [64, 128, None] if quick else [64, 65, 127, 128, 4096, 0xFFFFFF, None]))
     for f, tab, note in binary_files(rng, 26 if quick else 400):
         files.append((f, tab, note, rng.sample(BIN_BS, 2 if quick else 4) + [None]))
     if not quick:
@@ -235,7 +237,8 @@ def run(ctx):
         rule="in-process: files of 0-6 messages (dated head lines in one ISO notation, 0-3 continuation lines each, 0-2 undated leading lines, "
              "arbitrary bytes incl. NUL/CR/high bytes, no digit pairs outside timestamps, with/without final newline, line lengths 1, bs-1, bs, bs+1, k*bs+-1) at block "
              "sizes 1..70; per file one reader instance driven by a sequence of 4-14 find_line/find_sysline calls (line starts +-1, 0, |f|-1, |f|, |f|+1, block edges, repeats, "
-             "random, backward) then the stage driver; end-to-end: the s4 binary at --blocksz drawn from 64,65,127,128,4096,0x10000,0xFFFFFF and the default. "
+             "random, backward) then the stage driver; end-to-end: NUL-heavy logs (a short first dated line followed by continuation lines of NUL bytes so that 50-83 % of the "
+             "first 128 bytes are NUL: run directly after the first line, spread over short lines, mixed, placed later in the file as control) at --blocksz 64, 128 and the default;  the s4 binary at --blocksz drawn from 64,65,127,128,4096,0x10000,0xFFFFFF and the default. "
              "non-trivial = (block size, file) pairs in which a line starts or ends within +-1 of a block edge or spans >= 2 blocks; distinct by (bs, bytes)",
         samples=[dict(blocksz=cases[i][0], file_hex=cases[i][1].hex(), ops=[list(x) for x in cases[i][3]],
                       impl=repr(answers[i])[:600] if answers else None) for i in (0, 1)] if cases else [],
